@@ -85,7 +85,8 @@ S_BLUE = ['str', 'blue']
 
 def M(mid, classes, doctypes, keys, scalars, reg=None, qtags=('seq',),
       mtags=('map',), oddkeys=(), stags=(), family='load', note='',
-      qn=4, tn=5):
+      qn=4, tn=5, strs=(), dump=True, rtypes=None,
+      qo=4, to=5):
     names = [c['name'] for c in classes]
     return {
         'id': mid, 'classes': classes,
@@ -96,6 +97,8 @@ def M(mid, classes, doctypes, keys, scalars, reg=None, qtags=('seq',),
         'qtags': list(qtags), 'mtags': list(mtags),
         'oddkeys': [list(s) for s in oddkeys],
         'family': family, 'note': note, 'qn': qn, 'tn': tn,
+        'strs': list(strs), 'dump': dump, 'qo': qo, 'to': to,
+        'rtypes': list(doctypes if rtypes is None else rtypes),
     }
 
 
@@ -143,14 +146,17 @@ def models():
     col = C('Col', kind='enum', members=['red', 'blue', 'true'])
     sl = C('Sl', kind='strlike', rejects=['abc'])
     us = C('Us', kind='userstring')
-    holder = C('Ho', [P('c', K('Col')), P('s', K('Sl'), ['null'])])
+    holder = C('Ho', [P('c', K('Col')), P('s', Opt(K('Sl')), ['null'])])
     ms.append(M('enum_str', [col, sl, us, holder],
                 [K('Col'), K('Sl'), K('Us'), K('Ho'), L(K('Col')),
                  U(K('Col'), INT), U(BOOL, K('Col')), U(K('Col'), BOOL),
                  D(INT, K('Sl')), D(K('Col'), K('Us'))],
                 keys=['c', 's', 'red'],
                 scalars=[S_RED, S_BLUE, S_ABC, S_TRUE, S_42],
-                stags=['!Col', '!Sl']))
+                stags=['!Col', '!Sl'],
+                rtypes=[K('Col'), K('Sl'), K('Us'), K('Ho'), L(K('Col')),
+                        U(K('Col'), INT), D(INT, K('Sl')),
+                        D(K('Col'), K('Us'))]))
     # ---- hierarchy: chain with abstract root, fork -------------------------
     sh = C('Sh', [P('n', STR)], abstract=True)
     ci = C('Ci', [P('n', STR), P('r', INT)], bases=['Sh'])
@@ -160,7 +166,8 @@ def models():
     ms.append(M('hier', [sh, ci, sq, cu],
                 [K('Sh'), K('Sq'), L(K('Sh')), U(K('Ci'), K('Sq'))],
                 keys=['n', 'r', 'w', 'h'], scalars=[S_ABC, S_42],
-                mtags=('map', '!Sq', '!Cu', '!Ci', '!Sh')))
+                mtags=('map', '!Sq', '!Cu', '!Ci', '!Sh'),
+                rtypes=[K('Ci'), L(K('Ci'))]))
     # ---- hooks: savorize chain over a single-inheritance chain -------------
     ba = C('Ba', [P('p', INT)], sav=['rename', 'pp', 'p'])
     mi = C('Mi', [P('p', INT), P('q', INT, ['int', '0'])], bases=['Ba'],
@@ -169,7 +176,8 @@ def models():
                   P('t', STR, ['str', 'x'])], bases=['Mi'],
            sav=['rename', 'tt', 't'])
     ms.append(M('hooks', [ba, mi, le], [K('Ba'), L(K('Ba'))],
-                keys=['p', 'pp', 'q', 't', 'tt'], scalars=[S_42, S_ABC]))
+                keys=['p', 'pp', 'q', 't', 'tt'], scalars=[S_42, S_ABC],
+                rtypes=[]))
     # ---- adversarial hooks: permissive recogniser + corrupting savorize ----
     pr = C('Pr', [P('a', INT)], recog=['permissive'])
     cs = C('Cs', [P('a', INT), P('b', STR, ['str', 'd'])],
@@ -181,12 +189,12 @@ def models():
     ms.append(M('adversarial', [pr, cs, ct, rs, ts],
                 [K('Pr'), K('Cs'), K('Ct'), K('Rs'), K('Ts'), L(K('Pr'))],
                 keys=['a', 'b', 'k'], scalars=[S_42, S_ABC],
-                mtags=('map', '!Pr')))
+                mtags=('map', '!Pr'), rtypes=[]))
     # ---- parsed class: scalar_to_mapping recipe ----------------------------
     pa = C('Pa', [P('txt', STR)], recog=['require_scalar_str'],
            sav=['scalar_to_mapping', 'txt'])
     ms.append(M('parsed', [pa], [K('Pa'), L(K('Pa')), U(K('Pa'), INT)],
-                keys=['txt'], scalars=[S_ABC, S_42]))
+                keys=['txt'], scalars=[S_ABC, S_42], rtypes=[]))
     # ---- custom discriminators ---------------------------------------------
     an = C('An', [P('kind', STR), P('v', INT)], abstract=True)
     ca = C('Ca', [P('kind', STR), P('v', INT)], bases=['An'],
@@ -195,18 +203,47 @@ def models():
            recog=['require_value', 'kind', 'str', 'blue'])
     ms.append(M('discrim', [an, ca, cb], [K('An'), L(K('An'))],
                 keys=['kind', 'v'], scalars=[S_RED, S_BLUE, S_42],
-                mtags=('map', '!Ca', '!Cb')))
+                mtags=('map', '!Ca', '!Cb'), rtypes=[]))
     # ---- ambiguity: two indistinguishable subclasses -----------------------
     am = C('Am', [P('a', INT)])
     a1 = C('A1', [P('a', INT)], bases=['Am'])
     a2 = C('A2', [P('a', INT)], bases=['Am'])
     ms.append(M('ambig', [am, a1, a2], [K('Am'), U(K('A1'), K('A2'))],
                 keys=['a'], scalars=[S_42],
-                mtags=('map', '!A1', '!A2', '!Am', '!Unknown')))
+                mtags=('map', '!A1', '!A2', '!Am', '!Unknown'), rtypes=[]))
     # ---- raising constructors ----------------------------------------------
     ir = C('Ir', [P('a', INT)], init_raises=True)
     ms.append(M('raising', [ir, sl], [K('Ir'), K('Sl'), L(K('Ir'))],
-                keys=['a'], scalars=[S_42, S_ABC]))
+                keys=['a'], scalars=[S_42, S_ABC], rtypes=[]))
+    # ---- dump / round-trip families ----------------------------------------
+    ms.append(M('strings', [], [STR, ANY, PATH], keys=['abc'], scalars=[S_ABC],
+                family='dump', qn=1, tn=1))
+    ms.append(M('strcoll', [], [L(STR), D(STR), D(ANY), L(ANY)],
+                keys=['abc', '42', 'true'], scalars=[S_ABC],
+                strs=['abc', '42', '1e5', 'null', ''], family='dump',
+                qn=1, tn=1))
+    ms.append(M('scalarvals', [], [INT, FLOAT, BOOL, NULL, DATE, Opt(FLOAT),
+                                   L(FLOAT), U(INT, STR), L(Opt(DATE))],
+                keys=['abc'], scalars=[S_ABC], strs=['abc', '42'],
+                family='dump', qn=1, tn=1))
+    df = C('Df', [P('a', INT), P('n', Opt(INT), ['null']),
+                  P('s', STR, ['str', 'abc']), P('i', INT, ['int', '42']),
+                  P('b', BOOL, ['bool', 'true'])],
+           swe=['remove_defaults', 'Df'])
+    ms.append(M('defaults', [df], [K('Df')], keys=['a', 'n', 's', 'i', 'b'],
+                scalars=[S_42, S_ABC], strs=['abc', '42'], family='dump',
+                qn=1, tn=1, qo=7, to=8))
+    iv = C('Iv', [P('my_attr', INT), P('o_p', STR, ['str', 'd'])],
+           sav=['dashes_to_unders'], swe=['unders_to_dashes'])
+    rn = C('Rn', [P('p', INT)], recog=['require_attr', 'pp'],
+           sav=['rename', 'pp', 'p'], swe=['rename', 'p', 'pp'])
+    pb = C('Pb', [P('txt', STR)], recog=['require_scalar_str'],
+           sav=['scalar_to_mapping', 'txt'], swe=['mapping_to_scalar', 'txt'])
+    ms.append(M('inverse', [iv, rn, pb],
+                [K('Iv'), K('Rn'), K('Pb'), L(K('Pb')), L(K('Rn'))],
+                keys=['my_attr', 'my-attr', 'o_p', 'o-p', 'p', 'pp', 'txt'],
+                scalars=[S_42, S_ABC], strs=['abc', '42'], family='dump',
+                qn=1, tn=1))
     return ms
 
 
@@ -268,12 +305,33 @@ IMPLICIT = {
     'null': 'null', '2020-01-02': 'timestamp', 'red': 'str', 'blue': 'str',
     'zz': 'str', 'dflt': 'str', 'd': 'str', 'x': 'str', '0': 'int',
     '1': 'int', '': 'null',
+    '1e5': 'float', 'yes': 'str', '~': 'null', '.inf': 'float',
+    '<<': 'merge', '0x1F': 'int', '1_000': 'int', '=': 'value', '0o7': 'str',
+    '+.5': 'float', '1E+5': 'float', '.5': 'float', '-.0': 'float',
+    '12e03': 'float', '-7': 'int', '-.inf': 'float', '.nan': 'float',
+    '1.0e+20': 'float', '-0.0': 'float', '1.0e-07': 'float', 'false': 'bool',
 }
 
 
-def build():
+POOL = {
+    'str': ['abc', '42', 'true', 'null', '1e5', '2020-01-02', 'yes', '',
+            '- x', 'a: b', '#c', ' lead', '1.5', '~', '.inf', '<<', '0x1F',
+            "it's", 'multi\nline', '\u00e9\u4e2d', '1_000', '=', '0o7', '+.5',
+            '1E+5', '.5', '-.0', '12e03'],
+    'int': ['42', '-7', '0'],
+    'float': ['1.5', '.inf', '-.inf', '.nan', '1.0e+20', '-0.0', '1.0e-07'],
+    'bool': ['true', 'false'],
+    'date': ['2020-01-02'],
+    'path': ['/tmp/x', 'rel/p', '42'],
+}
+
+
+def build(dimplicit=None):
     ms = models()
     vals = set()
+    for k, lst in POOL.items():
+        vals |= set(lst)
+    vals |= {'xk', 'extra'}
     for m in ms:
         for tag, val in m['scalars'] + m['oddkeys']:
             vals.add(val)
@@ -286,8 +344,13 @@ def build():
     for v in sorted(vals):
         implicit.append([v, IMPLICIT.get(v, 'str')])
     undash = [[k, k.replace('-', '_')] for k in sorted(vals)]
+    dimp = []
+    for v in sorted(vals):
+        dimp.append([v, (dimplicit or {}).get(v, IMPLICIT.get(v, 'str'))])
     return {
         'models': ms,
+        'pool': POOL,
+        'dimplicit': dimp,
         'coretags': CORE_TAGS,
         'ctor': ctor_table(pairs),
         'implicit': implicit,
